@@ -60,8 +60,8 @@ def make_ctx(item: dict) -> explore.Ctx:
         return bundled.bundled_setup(plans, spec['teams'], play_kind=kind, bidding=bidding, random_indices=indices, fragment=spec.get('fragment'))
 
     def judge(x: world.Execution, c: Counter, choices):
-        rp = {'kind': 'session', 'net': True, 'item': item, 'choices': list(x.choices) if not (choices and choices[0] == 'priority') else None,
-              'policy': choices if (choices and choices[0] == 'priority') else None}
+        rp = {'kind': 'session', 'net': True, 'item': item, 'choices': list(x.choices) if not (choices and str(choices[0]).startswith('priority')) else None,
+              'policy': choices if (choices and str(choices[0]).startswith('priority')) else None}
         e = x.extra
         c.see('outcome', (name, x.status))
         if x.status != 'complete':
@@ -111,7 +111,7 @@ def run_item(item, workers):
     ctx = make_ctx(item)
     explore.bounded(ctx, item.get('d', 0), workers, c)
     if item.get('priority'):
-        explore.priority(ctx, ['main', 'T1', 'T2', 'T3', 'T4', 'cl-N', 'cl-E', 'cl-S', 'cl-W'], c)
+        explore.priority(ctx, ['main', 'T1', 'T2', 'T3', 'T4', 'cl-N', 'cl-E', 'cl-S', 'cl-W'], c, workers=workers)
     c.inc('net_scenarios')
     if len(c.sets.get(f'sig:{ctx.name}', ())) > 1:
         c.violate('C11:net:timing', f'[{ctx.name}] outcomes differ between schedules', {})
@@ -169,6 +169,8 @@ def replay(d):
     c = Counter()
     explore.warm(ctx, d)
     if d.get('policy'):
+        if d['policy'][0] == 'priority-deep':
+            ctx.all_visible = True
         x = explore.run_once(ctx, [], policy=prims.FairPolicy() if d['policy'][1] == '@fair' else prims.PriorityPolicy(d['policy'][1]))
         ctx.judge(x, c, d['policy'])
     else:
